@@ -238,7 +238,11 @@ func (a *Analysis) CheckLifecycle(rep Reporter) (accepted, refused int64) {
 						ok = true
 					}
 				}
-				if !ok {
+				if !ok && a.releasedByInFlightCall(vi, c) {
+					// the value had been detached by an overwriting Set / a Del that was in flight during the
+					// Clear and called OnExit only after the Clear returned (known finding KF1)
+					rep("late-exit-by-in-flight-call", fmt.Sprintf("accepted value %#x was detached by a client call that was in flight during %s and passed to OnExit only at clock %d, after %s returned (clock %d)", v, EvNames[int(c.Kind)], vi.Exits[0], EvNames[int(c.Kind)], c.T2), a.Witness(v, c))
+				} else if !ok {
 					rep("no-exit-by-clear-or-close", fmt.Sprintf("accepted value %#x (Set returned at %d) was not passed to OnExit by the return (clock %d) of the next %s", v, vi.Set.T2, c.T2, EvNames[int(c.Kind)]), a.Witness(v, c))
 				}
 				break
@@ -246,4 +250,21 @@ func (a *Analysis) CheckLifecycle(rep Reporter) (accepted, refused int64) {
 		}
 	}
 	return
+}
+
+// releasedByInFlightCall reports whether the value's (single) exit happened inside a Set/Del call on the
+// same key that had been called before the Clear/Close c returned.
+func (a *Analysis) releasedByInFlightCall(vi *ValInfo, c Ev) bool {
+	if len(vi.Exits) != 1 || len(vi.Evicts) != 0 || len(vi.Rejects) != 0 {
+		return false
+	}
+	x := vi.Exits[0]
+	key := vi.Set.Key
+	for i := range a.Evs {
+		e := &a.Evs[i]
+		if (e.Kind == EvSet || e.Kind == EvDel) && e.Key == key && e.T1 < c.T2 && e.T1 < x && x < e.T2 {
+			return true
+		}
+	}
+	return false
 }
